@@ -368,7 +368,7 @@ func init() {
 	sim.Register(&sim.Check{
 		ID: "C17", Title: "Faucet pours respect the per-client and global limits", World: "ledger",
 		Gen: faucetScenario.Gen, Exec: faucetScenario.Exec,
-		Quick: sim.Budget{Runs: 480, WallS: 80}, Thorough: sim.Budget{Runs: 40000, WallS: 1200},
+		Quick: sim.Budget{Runs: 400, WallS: 75}, Thorough: sim.Budget{Runs: 40000, WallS: 900},
 		LevelText: "seeded search over pour histories: several clients, requested values chosen relative to the configuration in force (0, pour_amount, between pour_amount and max_pour_amount, max, max+1, what is left of the limit, huge), " +
 			"clock points placed around the individual and global reset windows, valid configurations varied through the real update-settings owner transaction (plus invalid ones and wrong callers as faults); " +
 			"per-client and global sums of the balance changes found in the MPT diff are compared with the limits stored in the trie, window changes with the reset durations",
